@@ -17,7 +17,7 @@ from wn.util import synset_id_formatter
 
 
 # Just use a subset of all available parts of speech
-IC_PARTS_OF_SPEECH = frozenset((NOUN, VERB, ADJ, ADV))
+IC_PARTS_OF_SPEECH = (NOUN, VERB, ADJ, ADV)  # ordered: also the key order of Freq
 Freq = dict[str, dict[Optional[str], float]]
 
 
